@@ -23,9 +23,8 @@ RULE = ('values = the listed alphabet of built-in/exotic/hostile values (no __di
         'generators, iterators, coroutines, cycles, invalid UTF-8, lone surrogates ...); sites = local / watch / return / exception; '
         'k = 1..3 snapshot tracepoints on the event; plus all graphs of the C05 family with k=2,3; every case is non-trivial when the '
         'value is not a plain scalar or k>1'
-        ' ; values also: raising __getattribute__, dead weakref.proxy, Exceptions with non-tuple / raising args, Mock(spec=...), application classes named like containers, a value whose rendering takes 150 ms of the harness clock')
-ASSUMPTIONS = ['dunder methods raise Exception subclasses (non-Exception BaseExceptions belong to C01)',
-               'the placeholder text for an offending value is a don\'t-care; it must have an entry and the snapshot must be delivered']
+        ' ; values also: raising __getattribute__, dead weakref.proxy, Exceptions with non-tuple / raising args, Mock(spec=...), application classes named like containers, a value whose rendering takes 150 ms of the harness clock; the hostile classes again with methods raising a BaseException that is no Exception (halt_*)')
+ASSUMPTIONS = [               'the placeholder text for an offending value is a don\'t-care; it must have an entry and the snapshot must be delivered']
 
 
 class BadStr:
@@ -131,6 +130,42 @@ class BadGetattribute:
         raise RuntimeError('unbound proxy: ' + name)
 
 
+class Halt(BaseException):
+    """What a cancelled task, an interrupt or sys.exit() raise: no Exception subclass."""
+
+
+def _halting(kind):
+    """The hostile classes again, their methods raising a BaseException that is not an Exception."""
+    def stop(*a, **k):
+        raise Halt(kind)
+    if kind == 'str':
+        return type('HaltStr', (), {'__str__': stop})()
+    if kind == 'repr':
+        return type('HaltRepr', (), {'__repr__': stop})()
+    if kind == 'len':
+        return type('HaltLen', (), {'__len__': stop})()
+    if kind == 'getattr':
+        return type('HaltGetattr', (), {'__getattr__': stop})()
+    if kind == 'prop':
+        o = type('HaltProp', (), {'bad': property(stop)})()
+        o.ok = 1
+        return o
+    if kind == 'dict':
+        return type('HaltDict', (), {'__dict__': property(stop)})()
+    if kind == 'iter':
+        return type('HaltList', (list,), {'__iter__': stop, '__len__': stop})([1])
+    if kind == 'keys':
+        return type('HaltDictSub', (dict,), {'keys': stop, 'items': stop})(a=1)
+    if kind == 'args':
+        return type('HaltArgs', (Exception,), {'args': property(stop)})()
+    if kind == 'key':
+        return {type('HaltKey', (), {'__str__': stop, '__repr__': stop})(): 1}
+    raise KeyError(kind)
+
+
+HALTS = ['str', 'repr', 'len', 'getattr', 'prop', 'dict', 'iter', 'keys', 'args', 'key']
+
+
 class _Target:
     pass
 
@@ -222,6 +257,10 @@ VALUES = {
     'nested_unbound': lambda: {'items': [1, 2, BadGetattribute()]}, 'slow_str': SlowStr,
     'thread': lambda: threading.current_thread(), 'frame': lambda: __import__('sys')._getframe(), 'traceback': lambda: _tb(),
 }
+
+
+for _k in HALTS:
+    VALUES['halt_' + _k] = (lambda k: (lambda: _halting(k)))(_k)
 
 
 def _tb():
